@@ -125,7 +125,7 @@ def exec_cases(cases, profiles=('debug', 'release')):
     return outs, stats
 
 def write_replay(pid, kind, payload):
-    d = os.path.join(VERIF, 'replays')
+    d = os.path.join(VERIF, 'replays') if runner.REPO == '/repo' else os.path.join(runner.WORK, 'replays')
     os.makedirs(d, exist_ok=True)
     body = json.dumps(payload, sort_keys=True, default=str)
     h = hashlib.sha1(body.encode()).hexdigest()[:12]
@@ -327,8 +327,9 @@ def run_check(spec, tier, seed, budget_scale=1.0, out=sys.stdout):
         'wall_s': round(wall, 2),
         'violations': len(violations),
     }
-    os.makedirs(os.path.join(VERIF, 'evidence'), exist_ok=True)
-    with open(os.path.join(VERIF, 'evidence', pid + '.json'), 'w') as f:
+    evd = os.path.join(VERIF, 'evidence') if runner.REPO == '/repo' else os.path.join(runner.WORK, 'evidence')
+    os.makedirs(evd, exist_ok=True)
+    with open(os.path.join(evd, pid + '.json'), 'w') as f:
         json.dump(ev, f, indent=1)
 
     for l in sorted(set(known_lines)):
